@@ -156,9 +156,11 @@ Definition case_wna (D num sr sc mr mc pr pc cr cc : nat) : prog :=
 Definition e_sim_ctor := "SimulatedStateModel::SimulatedStateModel".
 Definition e_sim_buffer := "SimulatedStateModel::bufferData".
 
-(* target_ (ir x T); target_.col(0) = initial_state; motion(col(k-1), col(k)) for k = 1..T-1 *)
+(* simulation_time == 0 is rejected with an exception (commit 56b3d39); target_ (ir x T);
+   target_.col(0) = initial_state; motion(col(k-1), col(k)) for k = 1..T-1 *)
 Definition p_sim_ctor (D T ir : nat) : prog :=
-  [ It e_sim_ctor "target_.col(0)" (Idx T 0); It e_sim_ctor "col(0)=initial_state" (Same ir 1 ir 1) ] ++
+  [ It e_sim_ctor "simulation_time >= 1" (Guard (pos T));
+    It e_sim_ctor "target_.col(0)" (Idx T 0); It e_sim_ctor "col(0)=initial_state" (Same ir 1 ir 1) ] ++
   for_ (T - 1) (fun k0 =>
     [ It e_sim_ctor "target_.col(k-1)" (Idx T k0); It e_sim_ctor "target_.col(k)" (Idx T (S k0)) ] ++
     p_wna_motion e_sim_ctor D ir 1 ir 1).
@@ -406,8 +408,9 @@ Definition e_ut_meas := "sigma_point::unscented_transform(MeasurementModel)".
 Definition e_ut_addmeas := "sigma_point::unscented_transform(AdditiveMeasurementModel)".
 
 (* the additive overloads add the noise covariance (qr x qc) to output.covariance(i) for
-   i < state.components; the measurement one does so even when the evaluation failed and
-   the output is the default-constructed 1-component 1-dimensional mixture *)
+   i < state.components.  [valid = false] describes the post-processing of the default-constructed
+   1-component 1-dimensional output of a failed evaluation: the measurement overload did that before
+   commit 49d7ed0 (kept for the regression specification in C14_Regress.v); it now returns first. *)
 Definition p_ut_add_noise (e : string) (comps : nat) (valid : bool) (lo : layout) (qr qc : nat) : prog :=
   let ocomps := if valid then comps else 1 in
   let odc := if valid then lcov lo else 1 in
@@ -424,7 +427,7 @@ Definition p_ut (variant : nat) (li : layout) (comps w : nat) (valid : bool) (pr
   p_ut_core e li comps w valid pr pc lo ++
   match variant with
   | 2 => p_ut_add_noise e comps true lo qr qc
-  | 4 => p_ut_add_noise e comps valid lo qr qc
+  | 4 => when valid (p_ut_add_noise e comps true lo qr qc)     (* if (!valid) return ...; *)
   | _ => []
   end.
 
@@ -719,7 +722,9 @@ Definition case_ut (variant : nat) (li : layout) (comps w : nat) (valid : bool) 
 
 Definition case_kfp (d : nat) (lp : layout) (comps : nat) (lq : layout) (compsq : nat) : prog :=
   p_kf_predict d lp comps lq compsq.
-Definition case_kfc (m n : nat) (lp : layout) (comps : nat) (lq : layout) (compsq yr yc : nat) : prog :=
+(* [again]: afterwards a second correction whose measurement is not available (measure() fails: nothing is
+   evaluated, corr_state = pred_state) and getLikelihood(), which finds innovations_ emptied (commit 201e1b4) *)
+Definition case_kfc (m n : nat) (lp : layout) (comps : nat) (lq : layout) (compsq yr yc : nat) (again : bool) : prog :=
   p_kf_correct m n lp comps lq compsq yr yc ++ p_kf_lik m comps.
 
 (* the UTWeight is built by the step's constructor from the model's declared input description *)
@@ -727,14 +732,20 @@ Definition case_ukfp (additive : bool) (lp : layout) (comps q : nat) (ls : layou
   p_ukf_predict additive lp comps (if additive then lcov ls else lcov ls + q) q ls.
 Definition ukfp_out (comps : nat) (ls : layout) : list nat := [comps; ldim ls; lcov ls].
 
+(* [again]: afterwards a second correction whose predictedMeasure fails (the sigma points are drawn, the
+   transform returns early, corr_state = pred_state) and getLikelihood(): innovations_ was emptied at the
+   start of the step (commit 201e1b4), so nothing is evaluated against the default 1x1 predicted_meas_ *)
 Definition case_ukfc (additive : bool) (lp : layout) (comps r : nat) (valid : bool) (lm : layout) (ir : nat)
-                     (lq : layout) (compsq : nat) : prog :=
-  p_ukf_correct additive lp comps (if additive then lcov lp else lcov lp + r) r valid lm ir lq compsq ++
-  when valid (p_ukf_lik comps ir (lcov lm)).
+                     (lq : layout) (compsq : nat) (again : bool) : prog :=
+  let w := if additive then lcov lp else lcov lp + r in
+  p_ukf_correct additive lp comps w r valid lm ir lq compsq ++
+  when valid (p_ukf_lik comps ir (lcov lm)) ++
+  when again (p_ukf_correct additive lp comps w r false lm ir lq compsq).
 
-Definition case_sukf (lp : layout) (comps msz sub r ir : nat) (lq : layout) (compsq : nat) : prog :=
+Definition case_sukf (lp : layout) (comps msz sub r ir : nat) (lq : layout) (compsq : nat) (again : bool) : prog :=
   p_sukf lp comps (lcov lp) msz sub r ir lq compsq ++
-  when (sukf_runs msz sub) (p_sukf_lik lp comps msz sub r ir).
+  when (sukf_runs msz sub) (p_sukf_lik lp comps msz sub r ir) ++
+  when (again && sukf_runs msz sub) (p_sigma e_sukf lp comps).
 
 Definition case_resample (lc : layout) (n : nat) (lr : layout) (nr np : nat) : prog := p_resample e_res lc n lr nr np.
 Definition case_resprior (lc : layout) (n k np : nat) : prog := p_resample_prior lc n k np.
@@ -760,11 +771,42 @@ Definition obs_grid (nx ny n : nat) : list nat := [b2n (grid_ret nx ny n)].
 Definition obs_ut (variant : nat) (li : layout) (comps : nat) (valid : bool) (lo : layout) : list nat :=
   let valid' := match variant with 1 | 2 => true | _ => valid end in b2n valid' :: ut_out li comps valid' lo.
 Definition obs_kfp (lq : layout) (compsq : nat) : list nat := [compsq; ldim lq].
-Definition obs_kfc (comps : nat) (lq : layout) (compsq : nat) : list nat := [compsq; ldim lq; 1; comps].
-Definition obs_ukfc (lp : layout) (comps : nat) (valid : bool) (lq : layout) (compsq : nat) : list nat :=
-  if valid then [compsq; ldim lq; 1; comps] else [comps; ldim lp; 0; 0].
-Definition obs_sukf (lp : layout) (comps msz sub : nat) (lq : layout) (compsq : nat) : list nat :=
-  obs_ukfc lp comps (sukf_runs msz sub) lq compsq.
+(* after a step that could not use the measurement: corr_state = pred_state, no likelihood *)
+Definition obs_unused (lp : layout) (comps : nat) : list nat := [comps; ldim lp; 0; 0].
+Definition obs_kfc (lp : layout) (comps : nat) (lq : layout) (compsq : nat) (again : bool) : list nat :=
+  [compsq; ldim lq; 1; comps] ++ (if again then obs_unused lp comps else []).
+Definition obs_ukfc (lp : layout) (comps : nat) (valid : bool) (lq : layout) (compsq : nat) (again : bool) : list nat :=
+  (if valid then [compsq; ldim lq; 1; comps] else obs_unused lp comps) ++ (if again then obs_unused lp comps else []).
+Definition obs_sukf (lp : layout) (comps msz sub : nat) (lq : layout) (compsq : nat) (again : bool) : list nat :=
+  obs_ukfc lp comps (sukf_runs msz sub) lq compsq again.
 Definition obs_resample (lr : layout) (nr : nat) : list nat := [nr; nr; nr; nr; lcov lr * nr].
 Definition obs_extract (calls stat avg el ec pr : nat) : list nat :=
   flat_map (fun _ => [1; match avg with 0 => ext_stat_rows stat el ec pr | _ => el + ec end]) (seq 0 calls).
+
+(* ------------------------------------------------------------------ *)
+(* GaussianMixture::augmentWithNoise / ParticleSet::augmentWithNoise (noise covariance qr x qc) *)
+
+Definition e_aug := "ParticleSet::augmentWithNoise".
+Definition aug_ret (qr qc : nat) : bool := qr =? qc.
+Definition p_augment (l : layout) (comps qr qc : nat) : prog :=
+  let dold := lcov l in let dc := lcov l + qr in let dim := ldim l + qr in
+  when (aug_ret qr qc)
+  ([ It e_aug "mean_.bottomRows(added)" (Blk dim comps (dim - qr) 0 qr comps) ] ++
+   for_ (comps - 1) (fun i =>
+     let ii := comps - 1 - i in
+     [ It e_aug "new_block" (Blk dc (dc * comps) 0 (ii * dc) dold dold);
+       It e_aug "old_block" (Blk dc (dc * comps) 0 (ii * dold) dold dold) ] ++
+     for_ dold (fun j => [ It e_aug "col(j_index)" (Idx dold (dold - 1 - j)) ])) ++
+   for_ comps (fun i =>
+     [ It e_aug "covariance_.block(noise)" (Blk dc (dc * comps) dold (i * dc + dold) qr qr);
+       It e_aug "block=noise_covariance_matrix" (Same qr qr qr qc);
+       It e_aug "covariance_.block(zero)" (Blk dc (dc * comps) 0 (i * dc + dold) dold qr) ]) ++
+   [ It e_aug "state_.bottomRows(added)" (Blk dim comps (dim - qr) 0 qr comps) ]).
+(* the particle set after the call, then its sigma points *)
+Definition aug_layout (l : layout) (qr qc : nat) : layout := if aug_ret qr qc then augment l qr else l.
+Definition case_psaug (l : layout) (comps qr qc qr2 qc2 : nat) : prog :=
+  let l1 := aug_layout l qr qc in let l2 := aug_layout l1 qr2 qc2 in
+  p_augment l comps qr qc ++ p_augment l1 comps qr2 qc2 ++ p_sigma e_sp l2 comps.
+Definition obs_psaug (l : layout) (comps qr qc qr2 qc2 : nat) : list nat :=
+  let l1 := aug_layout l qr qc in let l2 := aug_layout l1 qr2 qc2 in
+  [b2n (aug_ret qr qc); b2n (aug_ret qr2 qc2); ldim l2; lcov l2; noise l2; ldim l2; ldim l2; lcov l2; lcov l2 * comps] ++ sigma_out l2 comps.
